@@ -55,6 +55,9 @@ def instants_for(zone: str, r, n_random: int):
             out.append(base + r.randrange(60, 6 * 3600))
         out.append(t - 1)
         out.append(t)
+    # years in which several zones still had other rules than today (Sao Paulo, Moscow, Istanbul, Tehran had DST or another offset)
+    for y, mo in ((2010, 1), (2010, 7), (2015, 1), (2018, 1), (2018, 12), (2021, 7)):
+        out.append(int(datetime(y, mo, 15, r.randrange(24), r.randrange(60), tzinfo=timezone.utc).timestamp()))
     for y in (2023, 2024, 2025, 2026):
         for (mo, d) in ((12, 31), (1, 1), (2, 28), (3, 1)):
             out.append(int(datetime(y, mo, d, r.randrange(24), r.randrange(60), r.randrange(60), tzinfo=timezone.utc).timestamp()))
@@ -96,7 +99,7 @@ class C11(Prop):
             inst = instants_for(zone, r, n_random)
             if tier == "quick":
                 # all transition-adjacent instants are kept; cap the rest
-                inst = inst[:70] + inst[-(n_random + 17):]
+                inst = inst[:70] + inst[-(n_random + 23):]
             for now in inst:
                 if i % nshards == shard:
                     yield {"zone": zone, "now": now}
